@@ -147,7 +147,8 @@ def generate(cls, rng):
            for _ in specs]
     ops = [["set_tz", rng.randrange(len(specs))]]
     handles = 0
-    for _ in range(rng.randrange(15, 70)):
+    from dsim import depth as DP
+    for _ in range(rng.randrange(15, DP.pick(70, 200))):
         r = rng.random()
         if r < 0.12:
             ops.append(["set_tz", rng.choice([None] +
